@@ -338,3 +338,28 @@ PROPS["C18"] = dict(
                                       "numbered directories (cpu12, node3, index0) are not removed (the property's alphabet)",
                                       "distinct faulted outcomes are counted per worker"],
 )
+
+
+PROPS["C10"] = dict(
+    level_text="Exhaustive within bounds: every topology of a 23-element family (synthetic / XML, with and without IS_THISSYSTEM, with "
+               "disallowed and out-of-range positions; the live machine) x every binding entry point x every subset of a small universe "
+               "of legal, complete-only and out-of-range positions plus infinite variants x every flag word of the domain x every policy, "
+               "against a reference model of the argument fix-ups and of the hook table, observing what reaches sched_setaffinity / "
+               "pthread_setaffinity_np / mbind / set_mempolicy / migrate_pages through symbol interposition. Live: every non-empty subset of "
+               "the allowed CPUs is bound, read back, compared with the kernel mask and the last CPU location; loads under every component "
+               "selection leave the caller's binding as found.",
+    technique="bounded-exhaustive enumeration of argument tuples on the real binding code with an operating-system seam (symbol interposition) and a reference model; exhaustive live round trip over all subsets of the allowed CPUs",
+    design_ref="DESIGN.md 5 (C10), 2.5",
+    stages=[simple("args", "c10_binding", parts=32, deadline={"quick": 240, "thorough": 3000}, ldflags=["-ldl"],
+                   args={"quick": ["--stage", "args"], "thorough": ["--stage", "args"]}),
+            simple("live", "c10_binding", parts=16, deadline={"quick": 240, "thorough": 3000}, ldflags=["-ldl"],
+                   args={"quick": ["--stage", "live"], "thorough": ["--stage", "live"]})],
+    explanation="Synthetic and XML topologies loaded with IS_THISSYSTEM run the native Linux hooks; the seam then stubs the system calls, so the "
+                "sets handed to the operating system are observed for topologies with several NUMA nodes and disallowed CPUs although the sandbox "
+                "has one node. On the live machine calls are forwarded and the caller's binding is restored after each case.",
+    bounds={"quick": "cpubind: subsets of <= 9 positions; membind: subsets of <= 7 positions; 26 cpubind and 76 membind flag words, 12 policies; live: all 65535 subsets of 16 CPUs with the THREAD variant, process/pid/thread variants on sets of weight <= 2 or >= 15; loads bound to singletons, neighbour pairs and a fifth of the other pairs x 5 component selections x 4 flag words",
+            "thorough": "cpubind: <= 11 positions; membind: <= 8 positions; live: all variants on all subsets; loads bound to every singleton and pair"},
+    assumptions=COMMON_ASSUMPTIONS + ["set_area_membind/get_area_* are called with a non-zero length (a zero length is documented as a no-op)",
+                                      "the from-mask of migrate_pages is a wildcard, only the destination mask is compared with the legal set",
+                                      "the sandbox has one NUMA node: live membind round trips cover that node only"],
+)
